@@ -311,7 +311,15 @@ class MotionMonitor(Monitor):
                 st[key] = "\n".join(st[key]) + "\n"
         st.setdefault("clear", False)
         st.setdefault("shrink", False)
-        return dict(case, plugin=True, settings=st, steps=[["event", "PrintStarted"]] + list(case["steps"]))
+        steps = [["event", "PrintStarted"]] + list(case["steps"])
+        n = len(steps)
+        if n > 6:
+            # a pause and a resume somewhere in the job (digest-derived positions: the case stays a function of its content)
+            a = 2 + (len(repr(case["steps"][:5])) * 7919) % (n - 3)
+            b = min(n, a + 1 + (len(repr(case["steps"][-5:])) * 104729) % 9)
+            steps.insert(b, ["event", "PrintResumed"])
+            steps.insert(a, ["event", "PrintPaused"])
+        return dict(case, plugin=True, settings=st, steps=steps)
 
     def run_plugin_case(self, case):
         from ..harness import Plugin, region_payload
@@ -620,7 +628,19 @@ class C14(MotionMonitor):
         if params:
             feats["at_params"] = params
         regs, g = gen_program(rnd, feats, st, nsteps=rnd.randint(10, 40))
-        steps = [["event", "PrintStarted"]] + [x for x in g.steps if x[0] in ("g", "at")]
+        steps = [["event", "PrintStarted"]]
+        paused = False
+        for x in g.steps:
+            if x[0] not in ("g", "at"):
+                continue
+            # the job is paused and resumed now and then (pause / resume do not end it); @-commands sent in between count
+            if x[0] == "at" and not paused and rnd.random() < 0.3:
+                steps.append(["event", "PrintPaused"])
+                paused = True
+            steps.append(x)
+            if paused and rnd.random() < 0.4:
+                steps.append(["event", "PrintResumed"])
+                paused = False
         return dict(cls="plugin-stored-table", plugin=True, settings=st, regions=regs, steps=steps)
 
     def gen_plugin_case(self, rnd):
